@@ -5,7 +5,10 @@
    Scope: the theorems cover the packet types INSIDE the translator's layout fragment
    (Gen.PacketLayouts.packets: `Fragment` entries; the list is regenerated from the Go source on every
    run, [C04_translated_layouts_agree] and [C04_pinned_types_in_fragment] are re-proved against it).
-   Types reported `Opaque` are decided by the differential run only (Check/C04.v). *)
+   Types reported `Opaque` are decided by the differential run only (Check/C04.v).
+   Baseline: the tree with the fix commits 84c239a, 4d8a5a4, 6e760d1, a6ee6ec - the four findings once recorded for C04 are
+   repaired; the layouts below are translated from today's source (Handshake.Port is read unsigned, 1.7 arrays carry a
+   two-byte length, TabCompleteResponse is inside the fragment), so the theorems are statements about today's code. *)
 From Coq Require Import List NArith ZArith String Bool.
 From Verif Require Import Base.Hex Model.Layout Model.LayoutPrims Gen.PacketLayouts
   Proofs.C04_layout Proofs.C04_prims Proofs.C04.
@@ -27,7 +30,8 @@ Proof. exact pair_roundtrip. Qed.
 Print Assumptions C04_layout_roundtrip_generic.
 
 (* The premises hold for the concrete primitives (VarInt, bool, fixed ints, strings, byte arrays, UUID,
-   UUID text, keys, 1.7 arrays as implemented for lengths < 256): no assumption about primitives remains. *)
+   UUID text, keys, nameless NBT, 1.7 arrays in today's two-byte form for vanilla lengths < 32768 - and the PRE-FIX
+   one-byte form PBytes17Old for lengths < 256, which no layout of today's code uses): no assumption about primitives remains. *)
 Theorem C04_primitives_ok : pfam_ok LP lp_dom.
 Proof. exact lp_ok. Qed.
 Print Assumptions C04_primitives_ok.
